@@ -1,358 +1,3 @@
-(* C13 -- consequences of the ring invariant: ownership, order, absence of deadlock, termination measure,
-   and the n = 2 deadlock showing that IO_MIN = 3 is needed. *)
-From Coq Require Import Arith List Bool Lia.
-From Snap.Ring Require Import RingModel RingBase RingInv.
-Import ListNotations.
-
-Section Inv.
-Variable P : params.
-Hypothesis Hn : 3 <= pn P.
-Hypothesis HR : 1 <= pR P.
-Hypothesis Hposs : Forall (fun p => p < bmax P) (poss P).
-
-Notation n := (pn P).
-Notation R := (pR P).
-Notation W := (pW P).
-Notation L := (length (poss P)).
-Notation Inv := (RingInv P).
-
-(* ---------------------------------------------------------------------------------------------- *)
-(* ownership *)
-
-(* worker->func of reader w works on slot s (reads from disk into buffer_map[s][...]) *)
-Definition reader_on (st : state) (w s : nat) : Prop := wpcs (rget st w) = PRun /\ widx (rget st w) = s.
-Definition writer_on (st : state) (w s : nat) : Prop := wpcs (wget st w) = PRun /\ widx (wget st w) = s.
-
-(* the caller looks at the task and the buffer of reader w in slot reader_index once io_data_read /
-   io_parity_read has returned it (w left reader_list): the reader has moved to another slot and the task is
-   complete, with the position of the current stripe *)
-Lemma own_collected : forall st w, Inv st -> cpc st = CWork -> w < R -> ~ In w (rlist st) ->
-  widx (rget st w) <> r_idx st /\ get2 (rtask st) (r_idx st) w = fin_t P (cur st).
-Proof.
-  intros st w I C Hw Hin. destruct (ri_readers P st I w Hw). pose proof (ri_caller P st I) as Ic.
-  destruct (co_work P st Ic C) as (HK & Hcur & _).
-  assert (F : next_k st + 1 <= wseq (rget st w) + n) by (apply ro_fresh; right; auto).
-  rewrite ro_idx, (co_r P st Ic). split.
-  - apply mod_window_neq; lia.
-  - rewrite Hcur. replace (next_k st mod n) with ((next_k st - n) mod n).
-    + apply ro_old; lia.
-    + rewrite <- (mod_plus_n (next_k st - n) n) by lia. f_equal. lia.
-Qed.
-
-(* no writer is ever on the slot writer_index (io.c:663 assert), which in the caller's work phase is the slot
-   whose parity buffers the caller computes and which io_writer_sched rewrites *)
-Lemma own_writer : forall st w, Inv st -> w < W -> widx (wget st w) <> w_idx st.
-Proof.
-  intros st w I Hw. destruct (ri_writers P st I w Hw). pose proof (ri_caller P st I) as Ic.
-  rewrite wo_idx, (co_w P st Ic). apply not_eq_sym. apply mod_window_neq; lia.
-Qed.
-
-Lemma work_same_slot : forall st, Inv st -> cpc st = CWork -> 0 < W -> w_idx st = r_idx st.
-Proof.
-  intros st I C HW. pose proof (ri_caller P st I) as Ic. destruct (co_work P st Ic C) as (_ & _ & _ & HM).
-  rewrite (co_w P st Ic), (co_r P st Ic), <- (HM HW). symmetry. apply mod_plus_n. lia.
-Qed.
-
-(* io_reader_sched (io.c:424) rewrites the tasks of slot reader_index only when no reader is on it *)
-Lemma own_sched : forall st st' w, Inv st -> step P st CReadNext = Some st' -> w < R -> widx (rget st w) <> r_idx st.
-Proof.
-  intros st st' w I H Hw. unfold step in H. cbv zeta in H.
-  destruct (is_not_waiting (cwait st)); [|discriminate]. simpl in H.
-  destruct (is_cpc (cpc st) CNext || is_cpc (cpc st) CWork && (W =? 0)) eqn:Gc; [|discriminate]. simpl in H.
-  destruct (rlist st) eqn:Erl; [|discriminate].
-  destruct (ri_readers P st I w Hw). pose proof (ri_caller P st I) as Ic.
-  assert (F : next_k st + 1 <= wseq (rget st w) + n).
-  { apply ro_fresh. apply orb_true_iff in Gc. destruct Gc as [G|G]; [left; apply is_cpc_eq; exact G|].
-    apply andb_true_iff in G. destruct G as [G _]. apply is_cpc_eq in G. right. rewrite Erl. auto. }
-  rewrite ro_idx, (co_r P st Ic). apply mod_window_neq; lia.
-Qed.
-
-(* a Running task is the current task of its worker *)
-Lemma running_is_current : forall st w q p, Inv st -> w < R -> q < next_k st -> next_k st <= q + n ->
-  get2 (rtask st) (q mod n) w = Running p -> q = wseq (rget st w) /\ wpcs (rget st w) = PRun.
-Proof.
-  intros st w q p I Hw Hq Hq' T. destruct (ri_readers P st I w Hw).
-  destruct (lt_eq_lt_dec q (wseq (rget st w))) as [[Q|Q]|Q].
-  - rewrite ro_old in T by lia. unfold fin_t in T. destruct (_ <? _); discriminate.
-  - subst q. split; [reflexivity|]. rewrite ro_cur in T. destruct (wpcs (rget st w)); simpl in T; auto;
-      unfold fin_t in T; destruct (_ <? _); discriminate.
-  - rewrite ro_pending in T by lia. unfold sched in T. destruct (_ <? _); discriminate.
-Qed.
-
-(* ---------------------------------------------------------------------------------------------- *)
-(* order *)
-
-Lemma order_handed : forall st, Inv st -> rev (handed st) = firstn (length (handed st)) (poss P).
-Proof.
-  intros st I. pose proof (ri_caller P st I) as Ic. rewrite (co_handed P st Ic) at 1. rewrite rev_involutive.
-  apply map_pos_at_firstn. apply (co_hlen P st Ic).
-Qed.
-
-Lemma order_complete : forall st, Inv st -> stopped st -> bailed st = false -> rev (handed st) = poss P.
-Proof.
-  intros st I S B. rewrite (order_handed st I). pose proof (ri_caller P st I) as Ic.
-  destruct (co_stop P st Ic S B) as [E _]. rewrite E. apply firstn_all.
-Qed.
-
-Lemma order_written : forall st, Inv st -> map fst (written st) = firstn (M st) (poss P).
-Proof.
-  intros st I. pose proof (ri_caller P st I) as Ic. rewrite (co_written P st Ic).
-  apply map_pos_at_firstn. pose proof (co_hM P st Ic). pose proof (co_hlen P st Ic). lia.
-Qed.
-
-Lemma order_writer_prefix : forall st w, Inv st -> w < W ->
-  rev (get [] (wgot st) w) = nonskip (firstn (wseq (wget st w)) (written st)).
-Proof. intros st w I Hw. apply (wo_got P st w (ri_writers P st I w Hw)). Qed.
-
-Lemma order_writer_final : forall st w, Inv st -> cpc st = CEnd -> w < W ->
-  rev (get [] (wgot st) w) = nonskip (written st) /\ (bailed st = false -> map fst (written st) = poss P).
-Proof.
-  intros st w I C Hw. pose proof (ri_caller P st I) as Ic. destruct (ri_writers P st I w Hw).
-  destruct (co_end P st Ic C) as [_ E]. destruct (wo_exit (E w Hw)) as [_ Ev]. split.
-  - rewrite wo_got, Ev. unfold M. rewrite firstn_all. reflexivity.
-  - intros B. rewrite (order_written st I).
-    destruct (co_stop P st Ic (or_intror (or_intror C)) B) as [_ E2]. rewrite E2 by lia. apply firstn_all.
-Qed.
-
-(* ---------------------------------------------------------------------------------------------- *)
-(* absence of deadlock: in every non-final state satisfying the invariant some thread can take a step that is
-   neither a wait, nor a spurious wake-up, nor the caller giving up *)
-
-Definition is_progress (l : label) : bool :=
-  match l with
-  | RWait _ | WWait _ | CTaskWait _ _ | CParityWait | RSpur _ | WSpur _ | CSpur | CBail => false
-  | _ => true
-  end.
-
-Definition can_progress (st : state) : Prop := exists l st', is_progress l = true /\ step P st l = Some st'.
-
-Lemma reader_run_moves : forall st w, Inv st -> w < R -> wpcs (rget st w) = PRun -> can_progress st.
-Proof.
-  intros st w I Hw Epc. destruct (ri_readers P st I w Hw).
-  exists (REnd w). unfold step. cbv zeta. assert (Hwb : (w <? R) = true) by (apply Nat.ltb_lt; exact Hw). rewrite Hwb, Epc. simpl.
-  rewrite ro_idx, ro_cur, Epc. simpl. unfold run_t. destruct (pos_at P _ <? bmax P); eexists; split; reflexivity.
-Qed.
-
-Lemma reader_pending_moves : forall st w, Inv st -> w < R -> done st = false ->
-  wseq (rget st w) + 2 <= next_k st -> can_progress st.
-Proof.
-  intros st w I Hw Hd Hj. destruct (ri_readers P st I w Hw). pose proof (ri_caller P st I) as Ic.
-  destruct (wpcs (rget st w)) eqn:Epc.
-  - eapply reader_run_moves; eauto.
-  - exists (RTake w). unfold step. cbv zeta. assert (Hwb : (w <? R) = true) by (apply Nat.ltb_lt; exact Hw). rewrite Hwb, Epc, Hd. simpl.
-    rewrite ro_idx, succ_mod by lia.
-    assert (Hne : (wseq (rget st w) + 1) mod n <> r_idx st) by (rewrite (co_r P st Ic); apply mod_window_neq; lia).
-    apply Nat.eqb_neq in Hne. rewrite Hne. rewrite ro_pending by lia. unfold sched.
-    destruct (pos_at P _ <? bmax P); eexists; split; reflexivity.
-  - destruct (ro_blocked eq_refl). lia.
-  - rewrite (ro_exit eq_refl) in Hd. discriminate.
-Qed.
-
-Lemma reader_stop_moves : forall st w, Inv st -> w < R -> done st = true -> wpcs (rget st w) <> PExit -> can_progress st.
-Proof.
-  intros st w I Hw Hd Hne. destruct (ri_readers P st I w Hw).
-  destruct (wpcs (rget st w)) eqn:Epc.
-  - eapply reader_run_moves; eauto.
-  - exists (RExit w). unfold step. cbv zeta. assert (Hwb : (w <? R) = true) by (apply Nat.ltb_lt; exact Hw). rewrite Hwb, Epc, Hd. simpl.
-    eexists; split; reflexivity.
-  - destruct (ro_blocked eq_refl). congruence.
-  - congruence.
-Qed.
-
-Lemma writer_run_moves : forall st w, Inv st -> w < W -> wpcs (wget st w) = PRun -> can_progress st.
-Proof.
-  intros st w I Hw Epc. destruct (ri_writers P st I w Hw). destruct (wo_run Epc) as [Hv Es].
-  exists (WEnd w). unfold step. cbv zeta. assert (Hwb : (w <? W) = true) by (apply Nat.ltb_lt; exact Hw). rewrite Hwb, Epc. simpl.
-  rewrite wo_idx, (widx_prev P Hn HR) by exact Hv. rewrite (wo_cur Hv), Epc. unfold wcur_t. rewrite Es. simpl.
-  eexists; split; reflexivity.
-Qed.
-
-Lemma writer_pending_moves : forall st w, Inv st -> w < W -> wseq (wget st w) < M st -> can_progress st.
-Proof.
-  intros st w I Hw Hv. destruct (ri_writers P st I w Hw). pose proof (ri_caller P st I) as Ic.
-  destruct (wpcs (wget st w)) eqn:Epc.
-  - eapply writer_run_moves; eauto.
-  - exists (WTake w). unfold step. cbv zeta. assert (Hwb : (w <? W) = true) by (apply Nat.ltb_lt; exact Hw). rewrite Hwb, Epc. simpl.
-    rewrite wo_idx, (widx_next P Hn HR).
-    assert (Hne : wseq (wget st w) mod n <> w_idx st) by (rewrite (co_w P st Ic); apply mod_window_neq; lia).
-    apply Nat.eqb_neq in Hne. rewrite Hne. rewrite wo_pending by lia. unfold wsched.
-    destruct (snd (wr_at st (wseq (wget st w)))); eexists; split; reflexivity.
-  - destruct (wo_blocked eq_refl). lia.
-  - destruct (wo_exit eq_refl). lia.
-Qed.
-
-Lemma writer_stop_moves : forall st w, Inv st -> w < W -> done st = true -> wpcs (wget st w) <> PExit -> can_progress st.
-Proof.
-  intros st w I Hw Hd Hne. destruct (ri_writers P st I w Hw). pose proof (ri_caller P st I) as Ic.
-  destruct (Nat.eq_dec (wseq (wget st w)) (M st)) as [Ev|Ev]; [|eapply writer_pending_moves; eauto; lia].
-  destruct (wpcs (wget st w)) eqn:Epc.
-  - eapply writer_run_moves; eauto.
-  - exists (WExit w). unfold step. cbv zeta. assert (Hwb : (w <? W) = true) by (apply Nat.ltb_lt; exact Hw). rewrite Hwb, Epc, Hd. simpl.
-    rewrite wo_idx, (widx_next P Hn HR), Ev, <- (co_w P st Ic), Nat.eqb_refl. simpl. eexists; split; reflexivity.
-  - destruct (wo_blocked eq_refl). congruence.
-  - congruence.
-Qed.
-
-Theorem no_deadlock : forall st, Inv st -> is_final st = false -> can_progress st.
-Proof.
-  intros st I Hf. pose proof (ri_caller P st I) as Ic. unfold is_final in Hf.
-  destruct (cpc st) eqn:C; try discriminate.
-  - (* CNext *)
-    destruct (co_next P st Ic C) as (Erl & Ecw & _).
-    exists CReadNext. unfold step. cbv zeta. rewrite Ecw, C, Erl. simpl.
-    destruct (_ <? bmax P); eexists; split; reflexivity.
-  - (* CWork *)
-    assert (Hd : done st = false).
-    { destruct (done st) eqn:D; [|reflexivity]. apply (co_done P st Ic) in D. destruct D; congruence. }
-    destruct (cwait st) eqn:Ecw.
-    + destruct (rlist st) as [|w1 rl] eqn:Erl.
-      * destruct (Nat.eq_dec W 0) as [W0|W0].
-        -- exists CReadNext. unfold step. cbv zeta. rewrite Ecw, C, Erl, W0. simpl.
-           destruct (_ <? bmax P); eexists; split; reflexivity.
-        -- assert (W0b : (W =? 0) = false) by (apply Nat.eqb_neq; exact W0).
-           destruct (wlist st) as [|w1 wl] eqn:Ewl.
-           ++ exists (CWriteNext false). unfold step. cbv zeta. rewrite Ecw, C, W0b, Erl, Ewl. simpl.
-              rewrite (work_same_slot st I C) by lia. rewrite Nat.eqb_refl. simpl. eexists; split; reflexivity.
-           ++ destruct (wscan_total st ((w_idx st + 1) mod n) (wlist st)) as [N|[w N]].
-              ** intros w Hw. apply own_writer; auto. apply (co_wlist P st Ic). exact Hw.
-              ** assert (Hin : In w1 (wlist st)) by (rewrite Ewl; left; reflexivity).
-                 pose proof (co_wlist P st Ic w1 Hin) as Hw1.
-                 pose proof (wscan_none _ _ _ N w1 Hin) as Hb. rewrite (busy_eq P Hn HR st Ic) in Hb.
-                 destruct (ri_writers P st I w1 Hw1). rewrite wo_idx in Hb.
-                 symmetry in Hb. apply mod_window_eq in Hb; [|lia|lia].
-                 apply writer_pending_moves with (w := w1); auto. lia.
-              ** exists (CParityWrite w). unfold step. cbv zeta. rewrite Ecw, C, Erl. simpl.
-                 rewrite N, Nat.eqb_refl. eexists; split; reflexivity.
-      * destruct (rscan st 0 R) as [w'|] eqn:Es.
-        -- exists (CTaskRead 0 R w'). unfold step. cbv zeta. rewrite Ecw, C. simpl. rewrite Es, Nat.eqb_refl.
-           eexists; split; reflexivity.
-        -- assert (Hin : In w1 (rlist st)) by (rewrite Erl; left; reflexivity).
-           pose proof (co_rlist P st Ic w1 Hin) as Hw1.
-           unfold rscan in Es. pose proof (find_none _ _ Es w1 Hin) as Hp. simpl in Hp.
-           assert (Hr : in_range 0 R w1 = true) by (apply in_range_spec; lia). rewrite Hr in Hp. simpl in Hp.
-           apply negb_false_iff, Nat.eqb_eq in Hp.
-           destruct (ri_readers P st I w1 Hw1). rewrite ro_idx, (co_r P st Ic) in Hp.
-           rewrite <- (mod_plus_n (wseq (rget st w1)) n) in Hp by lia. symmetry in Hp.
-           apply mod_window_eq in Hp; [|lia|lia].
-           apply reader_pending_moves with (w := w1); auto. lia.
-    + destruct (co_wait_r P st Ic base count Ecw) as (_ & (w & Hin & Hr) & Hall).
-      pose proof (Hall w Hin Hr). apply reader_pending_moves with (w := w); auto.
-      * apply (co_rlist P st Ic). exact Hin.
-      * lia.
-    + destruct (co_wait_w P st Ic Ecw) as (_ & _ & Hne & Hall).
-      destruct (wlist st) as [|w wl] eqn:Ewl; [congruence|].
-      assert (Hin : In w (wlist st)) by (rewrite Ewl; left; reflexivity). rewrite <- Ewl in Hall.
-      pose proof (Hall w Hin). apply writer_pending_moves with (w := w); auto.
-      * apply (co_wlist P st Ic). exact Hin.
-      * lia.
-  - (* CStopping *)
-    exists CStop. unfold step. rewrite C. simpl. eexists; split; reflexivity.
-  - (* CJoining *)
-    assert (Hd : done st = true) by (apply (co_done P st Ic); auto).
-    destruct (forallb (fun w => is_pc (wpcs (rget st w)) PExit) (seq 0 R)) eqn:Fr.
-    + destruct (forallb (fun w => is_pc (wpcs (wget st w)) PExit) (seq 0 W)) eqn:Fw.
-      * exists CJoin. unfold step. rewrite C, Fr, Fw. simpl. eexists; split; reflexivity.
-      * apply forallb_seq_false in Fw. destruct Fw as [w [Hw Hp]].
-        apply writer_stop_moves with (w := w); auto. intros E. rewrite E in Hp. discriminate.
-    + apply forallb_seq_false in Fr. destruct Fr as [w [Hw Hp]].
-      apply reader_stop_moves with (w := w); auto. intros E. rewrite E in Hp. discriminate.
-Qed.
-
-End Inv.
-
-(* ---------------------------------------------------------------------------------------------- *)
-(* runs *)
-
-Fixpoint run (P : params) (st : state) (ls : list label) : option state :=
-  match ls with
-  | [] => Some st
-  | l :: t => match step P st l with Some st' => run P st' t | None => None end
-  end.
-
-Lemma reachable_run : forall P st ls st', reachable P st -> run P st ls = Some st' -> reachable P st'.
-Proof.
-  intros P st ls; revert st. induction ls; simpl; intros st st' Hr H.
-  - inversion H; subst; exact Hr.
-  - destruct (step P st a) eqn:E; [|discriminate]. eapply IHls; [|exact H]. eapply reach_step; eauto.
-Qed.
-
-(* ---------------------------------------------------------------------------------------------- *)
-(* IO_MIN = 3 is needed: with two slots, one reader, one writer and a single stripe everybody ends up waiting *)
-
-Definition P2 : params := mkP 2 1 1 [0] 1.
-Definition n2_trace : list label :=
-  [CReadNext; REnd 0; RTake 0; CTaskRead 0 1 0; CParityWait; WWait 0; RWait 0].
-
-Definition n2_dead : state :=
-  match run P2 (init P2) n2_trace with Some st => st | None => init P2 end.
-
-Definition n2_variant (st : state) (rb wb cb : bool) : state :=
-  let ws := rget st 0 in
-  let st1 := if rb then st else upd_reader st (set wdflt (rd st) 0 (mkW (widx ws) PStep (wseq ws))) (rtask st) (cwait st) in
-  let ws2 := wget st1 0 in
-  let st2 := if wb then st1 else upd_writer st1 (set wdflt (wr st1) 0 (mkW (widx ws2) PStep (wseq ws2))) (wtask st1) (cwait st1) (wgot st1) in
-  if cb then st2 else upd_caller st2 (cpc st2) NotWaiting (rlist st2) (wlist st2) (bailed st2).
-
-Definition n2_dead_set : list state :=
-  [n2_variant n2_dead true true true; n2_variant n2_dead true true false;
-   n2_variant n2_dead true false true; n2_variant n2_dead true false false;
-   n2_variant n2_dead false true true; n2_variant n2_dead false true false;
-   n2_variant n2_dead false false true; n2_variant n2_dead false false false].
-
-Lemma n2_reached : run P2 (init P2) n2_trace = Some n2_dead.
-Proof. vm_compute. reflexivity. Qed.
-
-Lemma n2_all_blocked :
-  wpcs (rget n2_dead 0) = PBlocked /\ wpcs (wget n2_dead 0) = PBlocked /\ cwait n2_dead = OnWriteDone /\
-  is_final n2_dead = false.
-Proof. vm_compute. repeat split; reflexivity. Qed.
-
-Ltac in_dead_set := vm_compute; repeat first [left; reflexivity | right]; fail.
-
-
-Lemma n2_closed : forall st l st', l <> CBail -> In st n2_dead_set -> step P2 st l = Some st' -> In st' n2_dead_set.
-Proof.
-  intros st l st' Hl Hin H.
-  vm_compute in Hin.
-  repeat (destruct Hin as [<-|Hin]; [
-    destruct l; try congruence; try (destruct w as [|w]); vm_compute in H; try discriminate;
-    try (inversion H; subst st'; in_dead_set) |]).
-  contradiction.
-Qed.
-
-Lemma n2_dead_not_final : forall st, In st n2_dead_set -> is_final st = false.
-Proof.
-  intros st Hin. vm_compute in Hin. repeat (destruct Hin as [<-|Hin]; [reflexivity|]). contradiction.
-Qed.
-
-Lemma n2_only_waits : forall st l st', In st n2_dead_set -> step P2 st l = Some st' -> is_progress l = false.
-Proof.
-  intros st l st' Hin H.
-  vm_compute in Hin.
-  repeat (destruct Hin as [<-|Hin]; [
-    destruct l; try reflexivity; try (destruct w as [|w]); vm_compute in H; discriminate |]).
-  contradiction.
-Qed.
-
-(* the hypothesis 3 <= n of the theorems is used: for n = 2 a reachable state exists in which reader, writer
-   and caller are all blocked in thread_cond_wait, from which (unless the caller gives up) every run stays
-   among eight non-final states and only waits / spurious wake-ups are possible *)
-Theorem n2_deadlock :
-  reachable P2 n2_dead /\
-  wpcs (rget n2_dead 0) = PBlocked /\ wpcs (wget n2_dead 0) = PBlocked /\ cwait n2_dead = OnWriteDone /\
-  (forall ls st', ~ In CBail ls -> run P2 n2_dead ls = Some st' -> is_final st' = false) /\
-  (forall ls st' l st'', ~ In CBail ls -> run P2 n2_dead ls = Some st' -> step P2 st' l = Some st'' -> is_progress l = false).
-Proof.
-  assert (Hclosed : forall ls st st', ~ In CBail ls -> In st n2_dead_set -> run P2 st ls = Some st' -> In st' n2_dead_set).
-  { induction ls; simpl; intros st st' Hb Hin H.
-    - inversion H; subst; exact Hin.
-    - destruct (step P2 st a) eqn:E; [|discriminate]. apply IHls with (st := s); auto.
-      apply n2_closed with (st := st) (l := a); auto. }
-  assert (Hd : In n2_dead n2_dead_set) by (left; vm_compute; reflexivity).
-  split; [apply reachable_run with (st := init P2) (ls := n2_trace); [apply reach_init|apply n2_reached]|].
-  destruct n2_all_blocked as (A & B & C & _). repeat split; auto.
-  - intros ls st' Hb H. apply n2_dead_not_final. eapply Hclosed; eauto.
-  - intros ls st' l st'' Hb H Hs. eapply n2_only_waits; [|exact Hs]. eapply Hclosed; eauto.
-Qed.
-
-Show. Abort.  
+From Snap.Ring Require Import RingModel RingBase RingInv RingProofs.
+Check own_collected. Check own_writer. Check work_same_slot. Check own_sched. Check running_is_current.
+Check order_handed. Check order_complete. Check order_written. Check order_writer_prefix. Check order_writer_final. Check no_deadlock.
